@@ -167,16 +167,28 @@ impl Monitor for C19 {
             }
         }
         // setters and initialisers: outcome classes for coverage
+        // a single instruction is judged whether it landed or not; the instructions of a successful multi-instruction
+        // transaction are each judged on the state they found (a badge deleted by an earlier instruction of the same
+        // transaction is gone for the later ones)
+        let mut calls: Vec<(&crate::rt::Ix, &Ledger, bool, Option<u32>)> = Vec::new();
+        let views = ev.ix_views();
         if ev.tx.ixs.len() == 1 {
-            if let Some(c) = wpix::decode(&ev.tx.ixs[0]) {
+            calls.push((&ev.tx.ixs[0], ev.pre, ev.out.ok, ev.out.custom()));
+        } else if ev.out.ok {
+            for v in &views {
+                calls.push((v.ix, v.pre, true, None));
+            }
+        }
+        for (ixn, pre_l, ok_l, custom_l) in calls {
+            if let Some(c) = wpix::decode(ixn) {
                 let name = c.name();
                 if name.starts_with("set_") || name.starts_with("initialize_") {
-                    cov.eval(format!("{}|ok={}|code={:?}", name, ev.out.ok, ev.out.custom()));
+                    cov.eval(format!("{}|ok={}|code={:?}", name, ok_l, custom_l));
                 }
                 // mint admission
                 let (mints, config): (Vec<Pubkey>, Option<Pubkey>) = match name {
                     "initialize_pool" | "initialize_pool_v2" | "initialize_pool_with_adaptive_fee" => (vec![c.a("token_mint_a"), c.a("token_mint_b")], Some(c.a("whirlpools_config"))),
-                    "initialize_reward" | "initialize_reward_v2" => (vec![c.a("reward_mint")], ev.pre.data(&c.a("whirlpool")).and_then(decode::pool).map(|p| p.config)),
+                    "initialize_reward" | "initialize_reward_v2" => (vec![c.a("reward_mint")], pre_l.data(&c.a("whirlpool")).and_then(decode::pool).map(|p| p.config)),
                     _ => (vec![], None),
                 };
                 if let (false, Some(cfg)) = (mints.is_empty(), config) {
@@ -184,9 +196,9 @@ impl Monitor for C19 {
                     let verdicts: Vec<(bool, String)> = mints
                         .iter()
                         .map(|m| {
-                            let (ok, d) = admitted(ev.pre, &cfg, m);
+                            let (ok, d) = admitted(pre_l, &cfg, m);
                             // the v1 instructions take SPL Token mints only
-                            if v1 && ev.pre.get(m).map(|a| a.owner != crate::ix::tok()).unwrap_or(true) {
+                            if v1 && pre_l.get(m).map(|a| a.owner != crate::ix::tok()).unwrap_or(true) {
                                 (false, format!("{} (token-2022 mint offered to a v1 instruction)", d))
                             } else {
                                 (ok, d)
@@ -195,13 +207,13 @@ impl Monitor for C19 {
                         .collect();
                     let all = verdicts.iter().all(|(ok, _)| *ok);
                     for (_, d) in &verdicts {
-                        cov.eval(format!("{}|{}|ok={}", name, d, ev.out.ok));
+                        cov.eval(format!("{}|{}|ok={}", name, d, ok_l));
                     }
-                    if ev.out.ok && !all {
+                    if ok_l && !all {
                         out.push(viol("unsupported_mint_admitted", ev.idx, format!("{} succeeded over mints {:?}", name, verdicts)));
-                    } else if !ev.out.ok && all && ev.out.custom() == Some(6047) {
+                    } else if !ok_l && all && custom_l == Some(6047) {
                         out.push(viol("supported_mint_refused", ev.idx, format!("{} refused supported mints {:?} as unsupported", name, verdicts)));
-                    } else if ev.out.ok {
+                    } else if ok_l {
                         cov.probe("pool_or_reward_created_over_admitted_mints");
                         cov.sample(json!({"ix": name, "mints": verdicts.iter().map(|(_, d)| d.clone()).collect::<Vec<_>>(), "admitted": true}));
                     } else if !all {
